@@ -959,12 +959,7 @@ fn eval_c17(sc: &Scenario) -> Outcome {
         }
     }
     let cfg = &sc.config;
-    let bmul = if cfg.kind.is_sinc() {
-        let l = cfg.sinc_len_rounded() as f64;
-        4.0 * (l * cfg.oversampling as f64).sqrt() + 2.0 * l + 64.0
-    } else {
-        256.0
-    };
+    let eps = f32::EPSILON as f64;
     let mut worst = 0.0f64;
     for c in 0..cfg.channels {
         if !cfg.active(c) {
@@ -973,15 +968,58 @@ fn eval_c17(sc: &Scenario) -> Outcome {
         let ya = &a.out[c];
         let yb = &b.out[c];
         let peak = ya.iter().fold(1.0f64, |m, v| m.max(v.abs()));
-        let tol = bmul * (f32::EPSILON as f64) * peak;
+        // The f32 sinc table is normalised by a sequentially accumulated f32 sum of len * oversampling terms: the f32
+        // instantiation has a uniform gain error of up to n * eps / 2 (worst case; about sqrt(n) * eps typically). That
+        // gain is estimated from the two streams and judged on its own; what is left must agree to the rounding of a
+        // len-term dot product. Polynomial and FFT resamplers have no such table: gain 1.
+        let table: Option<(f64, f64)> = if cfg.kind.is_sinc() && cfg.kernel != Kernel::Custom {
+            // (table points, residual bound in eps): a len-term f32 dot product
+            let l = cfg.sinc_len_rounded() as f64;
+            Some((l * cfg.oversampling as f64, 4.0 * l + 64.0))
+        } else if cfg.kind.is_fft() {
+            // the FFT resamplers normalise their block-long filter the same way; f32 FFT rounding grows with log2(N)
+            let nblk = crate::oracle::fft_blocks(cfg).0.max(2) as f64;
+            Some((nblk, 64.0 * (2.0 * nblk).log2() + 256.0))
+        } else {
+            None
+        };
+        let (gain, gain_tol, bmul) = match table {
+            Some((n, resid)) => {
+                let (mut num, mut den) = (0.0f64, 0.0f64);
+                for (u, v) in ya.iter().zip(yb.iter()) {
+                    if u.is_finite() && v.is_finite() {
+                        num += u * v;
+                        den += u * u;
+                    }
+                }
+                let g = if den > 1e-6 * peak * peak { num / den } else { 1.0 };
+                // worst-case sequential f32 sum of n terms + systematic part of the dot products; with a relative cutoff
+                // above 1 (accepted, but the sinc then partly cancels in the normalisation sum) the sum is ill-conditioned
+                let l = cfg.sinc_len_rounded() as f64;
+                let mut gt = (0.5 * n + 8.0 * l + 128.0) * eps;
+                let fc_eff = if cfg.kind.is_sinc() { cfg.f_cutoff as f64 * cfg.ratio.min(1.0) } else { 0.0 };
+                if fc_eff > 1.0 || cfg.f_cutoff > 1.0 {
+                    gt = gt.max(1e-3);
+                }
+                (g, gt, resid)
+            }
+            None => (1.0, 0.0, 256.0),
+        };
+        // judged like the samples: relative to the (floored) peak
+        let peak_actual = ya.iter().fold(0.0f64, |m, v| if v.is_finite() { m.max(v.abs()) } else { m });
+        if (gain - 1.0).abs() * peak_actual > gain_tol * peak {
+            out.push("C17", "f32-gain-off-f64", 0, format!("channel {}: the f32 stream is {} times the f64 stream, more than the table normalisation can explain ({:e})", c, gain, gain_tol));
+            return out;
+        }
+        let tol = bmul * eps * peak;
         for (k, (u, v)) in ya.iter().zip(yb.iter()).enumerate() {
-            let d = (u - v).abs();
+            let d = (gain * u - v).abs();
             if d > worst * tol {
                 worst = d / tol;
             }
-            if !(d <= tol) {
+            if !(d <= tol) && !(u.is_nan() && v.is_nan()) {
                 let step = a.steps.iter().rev().find(|s| s.out_before <= k as u64).map(|s| s.op).unwrap_or(0);
-                out.push("C17", "f32-output-off-f64", step, format!("channel {} frame {}: f64 {} f32 {} |diff| {:e} > {} eps_f32 * peak {:e}", c, k, u, v, d, bmul, peak));
+                out.push("C17", "f32-output-off-f64", step, format!("channel {} frame {}: f64 {} (x table gain {}) f32 {} |diff| {:e} > {} eps_f32 * peak {:e}", c, k, u, gain, v, d, bmul, peak));
                 return out;
             }
         }
